@@ -191,6 +191,88 @@ macro_rules! for_impl_pair {
     };
 }
 
+
+/// The same observation as `observe`, but written against the *concrete* type with method-call
+/// syntax, so that inherent methods which shadow the trait methods (e.g. `const fn` accessors added
+/// to RawShortMessage) are what gets called - they must agree with the trait.
+macro_rules! concrete_observe {
+    ($name:ident, $t:ty) => {
+        pub fn $name(m: &$t) -> Obs {
+            let b = api(|| m.to_bytes());
+            Obs {
+                status: api(|| m.status_byte()),
+                d1: api(|| m.data_byte_1()).get(),
+                d2: api(|| m.data_byte_2()).get(),
+                bytes: (b.0, b.1.get(), b.2.get()),
+                ty: api(|| m.r#type()),
+                sup: api(|| m.super_type()),
+                main: api(|| m.main_category()),
+                is_note_on: api(|| m.is_note_on()),
+                is_note_off: api(|| m.is_note_off()),
+                is_note: api(|| m.is_note()),
+                channel: api(|| m.channel()).map(|c| c.get()),
+                key: api(|| m.key_number()).map(|c| c.get()),
+                velocity: api(|| m.velocity()).map(|c| c.get()),
+                controller: api(|| m.controller_number()).map(|c| c.get()),
+                control_value: api(|| m.control_value()).map(|c| c.get()),
+                program: api(|| m.program_number()).map(|c| c.get()),
+                pressure: api(|| m.pressure_amount()).map(|c| c.get()),
+                bend: api(|| m.pitch_bend_value()).map(|c| c.get()),
+                structured: api(|| m.to_structured()),
+            }
+        }
+    };
+}
+concrete_observe!(observe_concrete_raw, RawShortMessage);
+concrete_observe!(observe_concrete_structured, StructuredShortMessage);
+
+/// concrete paths + implementors the harness does not know by name (C01-C03)
+fn c_concrete_and_probes(s: u8, d1: u8, d2: u8) -> CheckResult {
+    use crate::impls::{probe, ForeignMasked, ProbeFactoryNo, ProbeFactoryYes, ProbeMessageNo, ProbeMessageYes};
+    let bytes = (s, h_u7(d1), h_u7(d2));
+    // a factory that relies on the documented precondition of from_bytes_unchecked
+    let fm = api(|| ForeignMasked::from_bytes(bytes));
+    ensure!(fm.is_ok() == (s >= 0x80), "from_bytes_validity/ForeignMasked", "from_bytes({:#04x},..) is_ok={} for a factory that stores 7 status bits (from_bytes must validate before calling from_bytes_unchecked)", s, fm.is_ok());
+    // concrete-path calls (inherent items shadowing the trait) agree with the trait
+    let r = api(|| RawShortMessage::from_bytes(bytes));
+    ensure!(r.is_ok() == (s >= 0x80), "from_bytes_validity/Raw/concrete_path", "RawShortMessage::from_bytes({:#04x},..) is_ok={}", s, r.is_ok());
+    let st = api(|| StructuredShortMessage::from_bytes(bytes));
+    ensure!(st.is_ok() == (s >= 0x80), "from_bytes_validity/Structured/concrete_path", "StructuredShortMessage::from_bytes({:#04x},..) is_ok={}", s, st.is_ok());
+    if let (Ok(r), Ok(st)) = (&r, &st) {
+        let (a, b) = (observe_concrete_raw(r), observe(r));
+        ensure!(a == b, format!("concrete_path_differs_from_trait/Raw/{}", first_diff(&a, &b)), "method-call syntax on RawShortMessage: {:?}, through the trait: {:?}", a, b);
+        let (a, b) = (observe_concrete_structured(st), observe(st));
+        ensure!(a == b, format!("concrete_path_differs_from_trait/Structured/{}", first_diff(&a, &b)), "method-call syntax on StructuredShortMessage: {:?}, through the trait: {:?}", a, b);
+        // references to messages, if they implement the trait (probe), observe like the message
+        let want = observe(r);
+        let rr: &RawShortMessage = r;
+        if let Some(o) = (&probe::<&RawShortMessage>()).with_message(&rr, &mut |m| m.observe()) {
+            ensure!(o == want, format!("probed_impl/ref_raw/{}", first_diff(&o, &want)), "&RawShortMessage implements ShortMessage but observes as {:?} instead of {:?}", o, want);
+        }
+        let sr: &StructuredShortMessage = st;
+        let swant = observe(st);
+        if let Some(o) = (&probe::<&StructuredShortMessage>()).with_message(&sr, &mut |m| m.observe()) {
+            ensure!(o == swant, format!("probed_impl/ref_structured/{}", first_diff(&o, &swant)), "&StructuredShortMessage implements ShortMessage but observes as {:?} instead of {:?}", o, swant);
+        }
+    }
+    // other types that might implement the factory trait
+    macro_rules! probe_factory {
+        ($t:ty, $label:expr) => {
+            if let Some(res) = (&probe::<$t>()).try_from_bytes(bytes) {
+                ensure!(res.is_ok() == (s >= 0x80), format!("probed_impl/{}/from_bytes_validity", $label), "{} implements ShortMessageFactory; from_bytes({:#04x},..) is_ok={}", $label, s, res.is_ok());
+                if let Ok((getters, tb)) = res {
+                    ensure!(getters == tb && (tb == (s, d1, d2) || tb == ref_canon(s, d1, d2)), format!("probed_impl/{}/bytes", $label), "{} built from ({:#04x},{},{}) reports {:?} / {:?}", $label, s, d1, d2, getters, tb);
+                }
+            }
+        };
+    }
+    probe_factory!((u8, U7, U7), "tuple_u8_U7_U7");
+    probe_factory!((u8, u8, u8), "tuple_u8_u8_u8");
+    probe_factory!([u8; 3], "array_u8_3");
+    probe_factory!(u32, "u32");
+    Ok(s >= 0x80)
+}
+
 // ---------------------------------------------------------------------------------------------
 // C01
 // ---------------------------------------------------------------------------------------------
@@ -227,6 +309,7 @@ fn c01_triple(s: u8, d1: u8, d2: u8) -> CheckResult {
     for i in 0..4u8 {
         nt |= for_impl!(i, c01_triple_impl(s, d1, d2))?;
     }
+    c_concrete_and_probes(s, d1, d2)?;
     if s >= 0x80 {
         // Into<(u8,U7,U7)> for RawShortMessage returns the input verbatim
         let raw = RawShortMessage::from_bytes((s, h_u7(d1), h_u7(d2))).map_err(|_| Fail {
@@ -598,6 +681,7 @@ fn c02_triple(s: u8, d1: u8, d2: u8) -> CheckResult {
     for i in 0..4u8 {
         for_impl!(i, c02_impl(s, d1, d2))?;
     }
+    c_concrete_and_probes(s, d1, d2)?;
     Ok(true)
 }
 
@@ -718,6 +802,9 @@ fn c03_pair<A: Impl, B: Impl>(s: u8, d1: u8, d2: u8) -> CheckResult {
 }
 
 fn c03_case(a: u8, b: u8, s: u8, d1: u8, d2: u8) -> CheckResult {
+    if a == 0 && b == 1 {
+        c_concrete_and_probes(s, d1, d2)?;
+    }
     for_impl_pair!(a, b, c03_pair(s, d1, d2))
 }
 
